@@ -36,8 +36,10 @@ INT_RE = re.compile(rb"(?<![\w.+-])\d+(?![\w.])")
 
 NUM_RE = re.compile(rb"(?<![A-Za-z_])[-+]?(?:\d+\.?\d*|\.\d+)(?:[eEdD][-+]?\d+)?")
 TOKENS = ["abc", "1e999x", "--", "nan", "1e999", "-1", "0", "99999999", "123456789012345678901234567890",
-          "1.5", "3", "2147483648", "*****", "0x1F", "1,5", "", "-0", "1e-400", "7e3"]
-GARBAGE_TOKENS = ["abc", "1e999x", "--", "*****", "x1"]
+          "1.5", "3", "2147483648", "*****", "0x1F", "1,5", "", "-0", "1e-400", "7e3",
+          # text that means something to str.format / % formatting when it is echoed in a message
+          "{", "{0}", "}", "%s", "{x!r}"]
+GARBAGE_TOKENS = ["abc", "1e999x", "--", "*****", "x1", "{0}", "%s}"]
 
 
 def _lines(data):
